@@ -20,7 +20,7 @@ from ..runner import Outcome, fail, open_features
 from ..strategies import Cfg, query_case
 from ..world import build_entities
 from ..build import build_query, rows_of
-from ..qcheck import reference_rows, case_features, render_query, ident, show_rows, satisfying
+from ..qcheck import reference_rows, case_features, render_query, ident, show_rows, satisfying, abandon
 
 ID = "C06"
 TITLE = "`the` returns the unique solution or raises, consistently with `an`"
@@ -29,7 +29,7 @@ RULE = ("cases = fully-selected descriptions (entity / set_of) drawn by Hypothes
         "solutions; the outcome class (NoSolutionFound / value / MultipleSolutionFound) must match the reference count, "
         "the value must be the one `an` yields, and a second evaluation must repeat the outcome. Non-trivial = the "
         "description has a connective or >= 2 variables; distinct = distinct canonical JSON.")
-BUDGET = {"quick": (4, 400), "thorough": (16, 4000)}
+BUDGET = {"quick": (8, 500), "thorough": (16, 4000)}
 ASSUMPTIONS = ["every variable of the query is selected", "evaluation happens outside any symbolic block (C09 covers inside)"]
 
 
@@ -38,7 +38,8 @@ def _cfg(tier):
     return Cfg(nvars=(1, 3), pool=(2, 5), dom=(1, 3), max_product=27,
                profile="falsy" if "falsy_values" not in avoid else "clean", max_depth=2, allow_empty_cond=True,
                select="all", desc=("entity", "set_of"), force_relate=True, noise=True, dom_kinds=("list", "tuple"),
-               allow_nested_not="not_under_not" not in avoid, clones=(1, 3))
+               allow_nested_not="not_under_not" not in avoid, clones=(1, 3),
+               extra_templates=("filter_then_join",) * 4)
 
 
 @st.composite
@@ -48,6 +49,7 @@ def _case(draw, tier):
     c["pick"] = draw(st.integers(0, 30))
     c["quant"] = "the"
     c["share_condition_object"] = draw(st.booleans())
+    c["abandon_shared_an_first"] = draw(st.sampled_from([0, 1, 1, 2]))
     return c
 
 
@@ -106,6 +108,14 @@ def check(case) -> Outcome:
         built = _build_sharing(V, spec, conts)
         other = _build_sharing(V, dict(spec, quant="an"), conts, built.conds)
         classes.append("condition_object_shared_with_a_later_query")
+        if case.get("abandon_shared_an_first"):
+            # ... and that `an` query was started and given up after a few results before `the` is asked
+            try:
+                abandon(other.q, case["abandon_shared_an_first"])
+            except Exception as e:
+                return fail("exception", f"abandoned an(...) over the same condition object: {type(e).__name__}: {e}",
+                            nontrivial=nontrivial, classes=classes, features=feats)
+            classes.append("after_abandoned_an_over_the_same_condition_object")
     else:
         built = build_query(eff, objs, quant="the")
 
@@ -121,6 +131,17 @@ def check(case) -> Outcome:
             got = o[1] if o[0] in ("error",) else (show_rows([o[1]]) if o[0] == "value" else o[0])
             return fail("wrong_outcome_" + o[0], f"{label}: {n} solution(s) {show_rows(expected)} so expected '{want}', "
                                                  f"got {o[0]}: {got}", nontrivial=nontrivial, classes=classes, features=feats)
+    if shared:
+        # the `an` query over the same condition objects, evaluated after `the`
+        try:
+            shared_rows = rows_of(other, list(other.q.evaluate()))
+        except Exception as e:
+            return fail("exception", f"an(...) over the same condition object: {type(e).__name__}: {e}",
+                        nontrivial=nontrivial, classes=classes, features=feats)
+        if {ident(r) for r in shared_rows} != {ident(r) for r in expected}:
+            return fail("shared_an_rows", f"an(...) built from the same condition object yields {show_rows(shared_rows)}, "
+                                          f"the reference has {show_rows(expected)}", nontrivial=nontrivial, classes=classes,
+                        features=feats)
     # `an` for the same description (built freshly)
     an_built = build_query(eff, objs, quant="an")
     an_rows = rows_of(an_built, list(an_built.q.evaluate()))
